@@ -523,6 +523,35 @@ pub fn strategy() -> BoxedStrategy<Scenario> {
         .boxed()
 }
 
+/// Clamp a structurally decoded scenario into the generator's domain (fuzz tier).
+pub fn fuzz_sanitize(sc: &mut Scenario) -> bool {
+    sc.tick_ms = 1 + sc.tick_ms % 12;
+    sc.duration_ms = 1 + sc.duration_ms % 80;
+    sc.phases.truncate(3);
+    for ph in sc.phases.iter_mut() {
+        ph.register.truncate(4);
+        let mut seen_never = false;
+        for s in ph.register.iter_mut() {
+            s.t_ms %= sc.duration_ms + 2 * sc.tick_ms + 4;
+            if s.client && s.kind == Kind::Never {
+                if seen_never {
+                    s.client = false;
+                }
+                seen_never = true;
+            }
+        }
+        ph.crash.truncate(2);
+        for c in ph.crash.iter_mut() {
+            *c %= 8;
+        }
+        ph.bounce.truncate(2);
+        for c in ph.bounce.iter_mut() {
+            *c %= 8;
+        }
+    }
+    !sc.phases.is_empty()
+}
+
 fn check(tier: Tier, seed: u64) -> i32 {
     let ctx = Ctx::new("C11", tier, seed, "exploration");
     ctx.replay_corpus(&replay);
